@@ -422,5 +422,5 @@ def kinds(tier):
         Kind("known-dead-table", run_table, enumerate=enum_table,
              exhaustive=True, hash_cases=False),
         Kind("schedules", run_schedule, strategy=gen_case(),
-             examples={"quick": 3000, "thorough": 300000}),
+             examples={"quick": 3000, "thorough": 120000}),
     ]
